@@ -78,14 +78,16 @@ def run(ctx):
                 "every DAG on <= 3 keys x every history of <= %d operations over the alphabet {Run k, Run all, 2 overlapping Runs, "
                 "Evict k, Edit k} x parallelism {1,2%s} followed by Run of every key; every DAG on 4 keys x one mixed history; random "
                 "DAGs on 3..8 keys with 1..3 Resolve calls per query, random histories, schedule jitter; distinct = distinct "
-                "(graph, inputs, history, parallelism); non-trivial = at least one dependency edge and at least two operations"
-                % (L, "" if ctx.tier == "quick" else ",3"))
+                "(graph, inputs, history, parallelism); non-trivial = at least one dependency edge and at least two operations; "
+                "the specification oracle runs on every history, the model (in coqc) on %s"
+                % (L, "" if ctx.tier == "quick" else ",3", "every 4th" if ctx.tier == "quick" else "every one"))
     import time as _t
     t0 = _t.time()
     outs = ctx.impl("incremental", cases)
     t1 = _t.time()
     terms, meta = [], []
-    for c, o in zip(cases, outs):
+    stride = ctx.budget(4, 1)     # quick: the model is evaluated in coqc on the corpus and on every 4th history
+    for ci, (c, o) in enumerate(zip(cases, outs)):
         ctx.count((c["n"], c["deps"], c["inputs"], c["ops"], c["par"]), any(c["deps"]) and len(c["ops"]) >= 2,
                   "n=%d" % c["n"])
         if "crash" in o or "panic" in o:
@@ -93,7 +95,7 @@ def run(ctx):
             continue
         for key, what in oracle(c, o):
             ctx.violation(key, what, {"input": c, "observed": o})
-        t = coq_case(c, o)
+        t = coq_case(c, o) if (ci < len(corpus) or ci % stride == 0) else None
         if t is not None:
             terms.append(t)
             meta.append((c, o))
